@@ -164,6 +164,9 @@ pub fn judge(sc: &S1Scenario, obs: &Obs) -> Judged {
         }
     }
 
+    if let (Some(m), JoinOutcome::Returned) = (&obs.helper_mismatch, &obs.join) {
+        v.push(Violation::new("C02", "helper-mismatch", format!("per-property helpers disagree with discoveries(): {}", m)));
+    }
     if obs.assert_ok_before_done && exhaustive_strategy(sc.strategy) {
         v.push(Violation::new("C02", "assert-before-done", "assert_properties() returned normally while is_done() was still false".to_string()));
     }
